@@ -392,6 +392,7 @@ def guard_sets(fn):
     filters of every enclosing loop's or closure's iterator chain (the complete path condition of the emission, as a conjunction)."""
     from ..src import render_pat
     out = {}
+    bound = _bound_names(fn)
     for node, parents in walk_with_parents(fn.body):
         is_insert = node["k"] == "MethodCall" and node["method"] == "insert" and render(node["recv"]).replace(" ", "").lstrip("*") == "errors"
         # a call that hands the diagnostics map to another validator is an emission site too (its guards are the callee's outer guards)
@@ -420,7 +421,7 @@ def guard_sets(fn):
         msg = ""
         if is_call:
             msg = "call:" + node["func"]["segs"][-1] + "(" + ",".join(render(a).replace(" ", "")[:24] for a in node["args"][:3])
-            out.setdefault(msg[:64], []).append(sorted(set(g)))
+            out.setdefault(msg[:64], []).append(sorted({_anon(c, bound) for c in g}))
             continue
         if node["args"]:
             a0 = node["args"][0]
@@ -431,8 +432,38 @@ def guard_sets(fn):
                 msg = str(a0["recv"]["lit"]["v"])
             else:
                 msg = render(a0)
-        out.setdefault(re.sub(r"\s+", " ", msg)[:48], []).append(sorted(set(g)))
+        out.setdefault(re.sub(r"\s+", " ", msg)[:48], []).append(sorted({_anon(c, bound) for c in g}))
     return {k: sorted(v) for k, v in out.items()}
+
+
+def _bound_names(fn):
+    """Names bound inside fn (closure parameters, let / for / if-let / match-arm patterns): renaming them is behaviour-preserving."""
+    names = set()
+    for n in walk(fn.body):
+        pats = []
+        if n["k"] == "Closure":
+            pats = n["params"]
+        elif n["k"] in ("LetExpr", "For", "Arm"):  # plain `let` locals keep their (meaningful) names
+            pats = [n["pat"]]
+        for p in pats:
+            for q in walk(p):
+                if q["k"] == "PIdent" and q["name"][:1].islower():
+                    names.add(q["name"])
+    return names
+
+
+def _anon(conj, bound):
+    """Replace locally bound names by $1, $2, .. in order of first appearance within the conjunct (alpha-renaming-insensitive)."""
+    order = {}
+
+    def sub(m):
+        w = m.group(0)
+        if w not in bound:
+            return w
+        if w not in order:
+            order[w] = f"${len(order) + 1}"
+        return order[w]
+    return re.sub(r"(?<![\w$.])[A-Za-z_]\w*(?!\w*!?\()(?![\w:])|(?<![\w$.])[A-Za-z_]\w*(?=\.)", sub, conj)
 
 
 def r9(chk):
